@@ -15,9 +15,9 @@ RULE = ("kinds: sequence (random operation sequence over {integrate(), integrate
         "non-trivial = sequence contains a reset followed by an integration; distinct by operation-shape signature")
 ASSUMPTIONS = ["persistent settings across reset(): method, rtol, atol, tf, kick mask, constants; dt returns to the constructor's dt with the sign of (tf - t0)"]
 FLOORS = {"quick": {"sequences": 100, "resets_checked": 100, "twin_comparisons": 100, "reset_after_event": 15, "reset_after_fault": 15, "reset_after_method_change": 15,
-                    "split_pairs": 30, "noop_calls": 30, "call_start_step_replay_steps": 300, "call_start_slope_checks": 100, "faults_inside_a_retry": 8, "cross_process_comparisons": 10},
+                    "split_pairs": 30, "noop_calls": 30, "call_start_step_replay_steps": 300, "call_start_slope_checks": 100, "faults_inside_a_retry": 8, "cross_process_comparisons": 10, "near_target_noop_calls": 80},
           "thorough": {"sequences": 1000, "resets_checked": 1000, "twin_comparisons": 1000, "reset_after_event": 150, "reset_after_fault": 150,
-                       "reset_after_method_change": 150, "split_pairs": 300, "noop_calls": 300, "call_start_step_replay_steps": 3000, "call_start_slope_checks": 1000, "faults_inside_a_retry": 40, "cross_process_comparisons": 70}}
+                       "reset_after_method_change": 150, "split_pairs": 300, "noop_calls": 300, "call_start_step_replay_steps": 3000, "call_start_slope_checks": 1000, "faults_inside_a_retry": 40, "cross_process_comparisons": 70, "near_target_noop_calls": 800}}
 CASE_TIMEOUT = 900
 METHODS = ["RK45CKSolver", "DOPRI45", "RK4Solver", "EulerSolver", "HeunEulerSolver", "RK8713MSolver", "ABAs5o6HSolver", "SymplecticEulerSolver",
            "BackwardEuler", "RadauIIA5", "GaussLegendre4", "MidpointSolver", "LobattoIIIC4", "R2:RK4Solver", "R3:MidpointSolver", "R3:HeunEulerSolver", "R4:EulerSolver"]
@@ -81,6 +81,11 @@ def gen_cases(tier, seed):
                 for kstep in ((2, 3, 5) if tier == "thorough" else (int(rng.integers(2, 5)),)):
                     cases.append(dict(kind="sequence", method=m0, direction=d, dense=dense, pseed=int(rng.integers(1 << 30)), cost=8,
                                       ops=[["fault_retry_integrate", None, kstep], ["integrate", None], ["reset"], ["integrate", None]]))
+    # wrappers of bases flagged symplectic take their own (halving / doubling only) step-size branch: short reset histories at loose tolerances
+    for m0 in ["R3:ABAs5o6HSolver", "R2:SymplecticEulerSolver", "R2:BABs9o7HSolver"]:
+        for d in (1, -1):
+            cases.append(dict(kind="sequence", method=m0, direction=d, dense=bool(d > 0), pseed=int(rng.integers(1 << 30)), cost=25, settings=dict(rtol=1e-3, atol=1e-5),
+                              ops=[["integrate", 0.5], ["reset"], ["integrate", 0.5], ["integrate", None]]))
     # the same sequence in THIS interpreter and in a fresh one started with another hash seed: bit-identical logs (no dependence on
     # interpreter state, import order, dict/set iteration order or class-level caches filled by earlier work of this process)
     seqs = [c for c in cases if c["kind"] == "sequence"]
@@ -147,6 +152,8 @@ class Runner:
         M = util.methods()
         self.M = M
         self.settings = dict(method=spec["method"], rtol=1e-5, atol=1e-7, tf=tf, mask=None)
+        if spec.get("settings"):
+            self.settings.update(spec["settings"])
         if settings:
             self.settings.update(settings)
         s = self.settings
@@ -435,6 +442,18 @@ def run_case(spec):
         rec.bump("noop_calls")
         if before != after:
             rec.violate("noop", "call_at_the_target_changed_the_system", feats, before=before[1:], after=after[1:])
+    # ... and so does a call whose target lies within the end tolerance of the integration loop (32 eps) of the current time: the library
+    # itself regards the system as being there (the loop does not step), so nothing - dt included - may change
+    if abs(float(s.t[-1])) < 4.0 and len(s) > 1:
+        before = (_digest(s), float(s.dt), int(s.nfev), len(s.events))
+        try:
+            s.integrate(float(s.t[-1]) + float(np.sign(float(s.t[-1]) - float(s.t[-2])) or 1.0) * 3e-15)
+        except Exception as e:
+            rec.violate("noop", "call_within_the_end_tolerance_raised", feats, err=repr(e)[:200])
+        after = (_digest(s), float(s.dt), int(s.nfev), len(s.events))
+        rec.bump("near_target_noop_calls")
+        if before != after:
+            rec.violate("noop", "call_within_the_end_tolerance_of_the_current_time_changed_the_system", feats, before=before[1:], after=after[1:])
     rec.sample = {"spec": {"method": spec["method"], "direction": d, "ops": spec["ops"]}, "log_tail": [{k: o[k] for k in ("rows", "raised", "dt")} for o in logs[0][-3:]]}
     return rec.out()
 
